@@ -260,6 +260,21 @@ func (env *Env) elab(e Expr) SV {
 					return v
 				}
 			}
+			// &p.f with p a pointer to a struct: the interior pointer
+			if sel, ok := x.X.(*ESel); ok {
+				base := env.elab(sel.X)
+				if base.ty != nil {
+					if pt, ok := base.ty.Underlying().(*types.Pointer); ok {
+						if st, ok := pt.Elem().Underlying().(*types.Struct); ok {
+							for i := 0; i < st.NumFields(); i++ {
+								if st.Field(i).Name() == sel.Name {
+									return env.goSV(app("fptr", base.t, num(int64(i))), types.NewPointer(st.Field(i).Type()))
+								}
+							}
+						}
+					}
+				}
+			}
 			return env.fail("cannot take the address of %s in a specification", x.X.String())
 		}
 		v := env.elab(x.X)
@@ -695,9 +710,19 @@ func (env *Env) selectField(v SV, name string, at Expr) SV {
 		}
 		return cur
 	case *types.Func:
-		// method value: bind receiver
+		// method value: bind receiver. Walking through embedded struct fields of an object reached by
+		// pointer keeps an address (the interior pointer fptr(ref, field)), so that methods with pointer
+		// receivers on embedded structs can be named in specifications.
 		recv := v
 		for _, i := range index[:len(index)-1] {
+			if pt, ok := recv.ty.Underlying().(*types.Pointer); ok {
+				if st, ok := pt.Elem().Underlying().(*types.Struct); ok {
+					if _, isStruct := st.Field(i).Type().Underlying().(*types.Struct); isStruct {
+						recv = env.goSV(app("fptr", recv.t, num(int64(i))), types.NewPointer(st.Field(i).Type()))
+						continue
+					}
+				}
+			}
 			recv = env.fieldAt(recv, i)
 		}
 		if types.IsInterface(recv.ty) {
@@ -890,6 +915,9 @@ func (env *Env) elabCall(x *ECall) SV {
 				}
 				if v.sort == "nil" {
 					v = env.nilOf(env.goSV("", m.vty))
+				}
+				if v.sort == "Iface" && m.vty != nil && env.vc.sortOf(m.vty) == "Int" {
+					v.t = "(ival " + v.t + ")" // a reference-valued ghost map fed from generic code (type parameter values are interfaces)
 				}
 				r := m
 				r.t = store(m.t, k.t, v.t)
